@@ -186,3 +186,28 @@ Proof.
   split; [exact (parse_ok f i _ Hf Hi Hsd Hc)|]. split; [reflexivity|]. split; [intros tb; exact (resolve_pseudo_num _ n i tb Hneg)|]. split; [exact Ht|].
   repeat split; assumption.
 Qed.
+
+(* ... and a single FCB literal that does not fit one byte is rejected at translation (OperandTypeError) *)
+Theorem fcb_literal_line_out_of_range_rejected f l :
+  well_formed_fields f -> upper_t (lf_mn f) = FCB_t -> lf_ops f = lit_text l -> lit_ok l -> 256 <= lit_value l ->
+  exists st, parse_line (line_of f) = Ok (Some st) /\
+    (forall tb, resolve_operand (s_operand st) (s_instr st) tb = Ok (s_operand st)) /\
+    translate_operand (s_operand st) (s_instr st) = Diag 21.
+Proof.
+  intros Hf Hm Ho Hl Hle.
+  destruct (find_instr FCB_t Tables.instructions) as [i|] eqn:Hi; [|vm_compute in Hi; discriminate].
+  assert (Hrow : Tables.is_string_define i = false /\ Tables.is_pseudo i = true /\ Tables.is_multi_byte i = true /\
+                 Tables.is_pseudo_define i = false /\ Tables.is_16_bit i = false /\ text_eqb (mnem i) FCB_t = true)
+    by (vm_compute in Hi; injection Hi as <-; repeat split; reflexivity).
+  destruct Hrow as (Hsd & Hps & Hmb & Hpd & H16 & Hfcb).
+  destruct (value_core_lit l None MExtended Hl) as (n & Hv & _ & Hint & Hneg).
+  pose proof (lit_no_comma l Hl) as Hnc.
+  assert (Hc : create_operand (lf_ops f) i = Ok (OPseudo (lit_text l) (VNum n))).
+  { rewrite Ho. unfold create_operand. rewrite Hps. unfold pseudo_operand. rewrite Hmb, Hnc, Hpd. cbn [andb negb].
+    unfold create_value. rewrite Hsd, H16, (value_of_text_plain l false true Hl). rewrite Hv. rewrite !andb_false_r. reflexivity. }
+  rewrite <- Hm in Hi.
+  exists (stmt_of f i (OPseudo (lit_text l) (VNum n))).
+  split; [exact (parse_ok f i _ Hf Hi Hsd Hc)|]. split; [intros tb; exact (resolve_pseudo_num _ n i tb Hneg)|].
+  apply (fcb_out_of_range_rejected i (lit_text l) (VNum n) Hfcb eq_refl).
+  left. unfold value_number. cbn [v_negative v_int]. rewrite Hneg, Hint. lia.
+Qed.
